@@ -83,7 +83,8 @@ def replay_history(df, init, state, emb, part, check_final=True):
         live = gh.reachable(df, list(vars_.values()))
         before = gh.snapshot(df, live)
         cls = _classify(st)
-        wit = lambda **kw: dict(scenario=hist[0]["sc"], history=list(hist[1:si + 1]), embedding=emb.name, step=si, **kw)
+        wit = lambda **kw: dict(scenario=hist[0]["sc"], history=list(hist[1:si + 1]), embedding=emb.name, step=si,
+                                replay={"init": init, "state": state}, **kw)
         # in-place == copy, observed on a deep clone (independent of the specification)
         twin = None
         if st["kind"] != "malformed" and st["inplace"]:
@@ -160,7 +161,7 @@ def replay_history(df, init, state, emb, part, check_final=True):
             part.violation(_key(clause, st, okind, (_classify(st) + "/" + tgt).strip("/")) if len(hist) > 1 else f"{clause}/init",
                            f"object graph differs from the specification after the history: {diffs[0][1]}",
                            dict(scenario=hist[0]["sc"], history=list(hist[1:]), embedding=emb.name, variable=x,
-                                differences=[f"{p}: {m}" for p, m in diffs[:5]]))
+                                differences=[f"{p}: {m}" for p, m in diffs[:5]], replay={"init": init, "state": state}))
             return
     if gh.sharing_signature(df, vars_) != gh.spec_sharing_signature(heap, roots):
         part.violation("sharing/" + (last.get("kind", "init")), "the objects share references differently from the specification's heap",
@@ -318,9 +319,33 @@ def _alias_p2_witness(ctx, df, emb):
                                 "r.translate((-0.5,0),inplace=True); m.translate((1,0))  # ValueError", "exc": repr(ex)})
 
 
+def _detuple(v):
+    """JSON -> the shapes tlaval produces (tuples for sequences)"""
+    if isinstance(v, list):
+        return tuple(_detuple(x) for x in v)
+    if isinstance(v, dict):
+        out = {}
+        for k, x in v.items():
+            out[int(k) if k.lstrip("-").isdigit() else k] = _detuple(x)
+        return out
+    return v
+
+
 def replay(ctx, path):
+    """re-execute the recorded history on the current tree"""
     df = core.import_library()
     with open(path) as fh:
         rp = json.load(fh)
-    print(json.dumps(rp["witness"], indent=1)[:4000])
-    return 1
+    w = rp["witness"] or {}
+    print("key:", rp["key"])
+    print("what:", rp["what"])
+    print("history:", json.dumps(w.get("history"))[:3000])
+    if "replay" not in w:
+        print("(witness without a replayable state: trace / witness-run finding)")
+        return 1
+    embs = {e.name: e for e in embed.DYADIC + embed.REAL}
+    part = Part()
+    replay_history(df, _detuple(w["replay"]["init"]), _detuple(w["replay"]["state"]), embs[w["embedding"]], part)
+    for k, what, _ in part["violations"]:
+        print("still fails:", k, "-", what)
+    return 1 if part["violations"] else 0
